@@ -8,7 +8,7 @@ fn any4() -> Coor4D {
     Coor4D(kani::any())
 }
 
-//@h {"id":"C15.K.ntv2.noroot","props":["C15","C08","C09"],"tier":"quick","kind":"complete","timeout":600,"text":"a decoded NTv2 grid without any root sub grid (no parent NONE) can be queried safely: contains() is false and at() is None for every point and margin, no panic"}
+//@h {"id":"C15.K.ntv2.noroot","props":["C15","C08","C09"],"tier":"quick","kind":"complete","timeout":1800,"text":"a decoded NTv2 grid without any root sub grid (no parent NONE) can be queried safely: contains() is false and at() is None for every point and margin, no panic"}
 #[kani::proof]
 #[kani::unwind(6)]
 fn c15_ntv2_noroot() {
